@@ -5,6 +5,7 @@ use crate::rt::{Cfg, Policy};
 use serde_json::{json, Value};
 
 pub mod locks;
+pub mod loose;
 pub mod odb;
 pub mod parallel;
 pub mod pathstack;
@@ -14,7 +15,7 @@ pub mod selftest;
 pub mod zstream;
 
 pub fn all() -> Vec<&'static dyn Scenario> {
-    vec![&selftest::SelfTest, &parallel::Parallel, &refstore::RefStore, &pktline::PktLine, &pathstack::PathStack, &zstream::ZStream, &locks::Locks, &odb::OdbRepack]
+    vec![&selftest::SelfTest, &parallel::Parallel, &refstore::RefStore, &pktline::PktLine, &pathstack::PathStack, &zstream::ZStream, &locks::Locks, &odb::OdbRepack, &loose::LooseStore]
 }
 
 /// Which scenario decides a property.
